@@ -623,6 +623,15 @@ def gen_sound(tier, seed, env_text):
             ["int", "float", "bool", "NoneType", "bytes", "mtfx.shapes.A", "mtfx.shapes.B", "mtfx.shapes.C", "mtfx.shapes.D",
              "mtfx.shapes.E", "mtfx.shapes.X1", "mtfx.shapes.X2", "mtfx.shapes.Y1", "mtfx.shapes.Y2", "mtfx.shapes.MyList"],
             rng.randint(3, 8))] for _ in range(40 if q else 1000)], [0], ["DEFAULT", "RLU2", "MSCB", "RLU5"], [""])
+    # application classes NAMED like builtins, hidden builtin types or typing constructs (a "not given" sentinel class called
+    # NoneType, a project's own frozenset / Warning / List), next to the real thing at the same position
+    # (classes named like TYPING names collide with the stub's own `from typing import ...`: C11's recorded finding, not repeated here)
+    look = ["mtfx.lookalikes.NoneType", "mtfx.lookalikes.frozenset", "mtfx.lookalikes.Warning", "mtfx.lookalikes.TimeoutError"]
+    real = [A("NoneType"), A("int"), C("list", A("int")), C("tuple", A("int")), A("float")]
+    add("application classes named like (hidden) builtins and typing names, next to the real thing",
+        [[mk_call("f0", [A(c), r1], A(c)), mk_call("f0", [r2, A(c)], r2)] for c in look for r1 in real[:3] for r2 in real[:2]]
+        + [[mk_call("g0", [A("int"), A(c), r1], A(c))] for c in look for r1 in real[:2]],
+        [0], ["NONE", "DEFAULT"], [""])
     for i, c in enumerate(cases):
         c["tid"] = i + 1
     return cases, plan
